@@ -84,6 +84,15 @@ theorem macro_guard_sound : GuardSound genMacroGuard := by
 
 example : genMacroGuard .markdown .html = true := by decide
 
+/-- **Inside a URL the fast path is never taken** (commit 173b2b7, `|| em.inURL` in
+`canOptimizeShowMacro`): with the emitter's `inURL` flag set the regenerated condition refuses every
+(result format, context), so `{{ M() }}` in `href`/`src`… goes through the generic branch — the one
+that hands `em.inURL` to `emitShow` — exactly like `{% var v = M() %}{{ v }}`. The model's contexts
+are the non-URL ones (`macroGuard = macroGuardU false`). -/
+theorem macro_guard_refuses_in_url (f : Format) (c : Ctx) :
+    ShowFastPath.macroGuardU true f.code c.code = false ∧ ShowFastPath.macroGuardReadsInURL = true := by
+  cases f <;> cases c <;> decide
+
 /-- full statement for `{{ render }}`: the regenerated guard of the `*ast.Render` branch implies
 `compatible`. **False of the code today** (known finding `render-fastpath-format`, DESIGN §8 row 14):
 the branch has no format test. -/
@@ -415,85 +424,96 @@ theorem no_local_resolves_to_table (c : Chain) (t : Table) (n d : Nat)
   simp [resolve, this, resolveLocal, ht]
 
 /-- **emitter fact** (regenerated from `emitCallNode`): the direct call of the package table's function
-is taken for a callee that is a plain identifier *not declared in the current function*. -/
-theorem emitter_direct_call_guarded (i d : Bool) : ExportGuard.directCallGuard i d = (i && !d) := by
-  cases i <;> cases d <;> decide
+is taken for a callee that is a plain identifier *not declared in the current function and not a
+closure variable of it* (commit d12f88d added the second test). -/
+theorem emitter_direct_call_guarded (i d cv : Bool) :
+    ExportGuard.directCallGuard i d cv = (i && !d && !cv) := by
+  cases i <;> cases d <;> cases cv <;> decide
 
 open Local in
-/-- **The guard is exactly what makes a local of the current function win**: for an arbitrary
+/-- **The first test is exactly what makes a local of the current function win**: for an arbitrary
 condition `g` of the direct-call branch, "every call of a name declared in the current function goes
 to the lexically resolved declaration" holds iff `g` refuses the branch for such names. -/
-theorem direct_call_guard_needed (g : Bool → Bool) :
+theorem direct_call_guard_needed (g : Bool → Bool → Bool) :
     (∀ (c : Chain) (t : Table) (n : Nat), declaredInFunc c n = true →
-      emitCallee g false c t n = resolve c t n) ↔ g true = false := by
+      emitCallee g c t n = resolve c t n) ↔ g true false = false := by
   constructor
   · intro h
     have := h [⟨[(0, 1)], true⟩] [(0, 9)] 0 (by decide)
-    cases hg : g true with
+    cases hg : g true false with
     | false => rfl
-    | true => simp [emitCallee, declaredInFunc, find, resolve, resolveLocal, hg] at this
+    | true => simp [emitCallee, isClosureVar, declaredInFunc, find, resolve, resolveLocal, hg] at this
   · intro hg c t n hd
-    exact emitCallee_of_declaredInFunc g hg false c t n hd
+    exact emitCallee_of_declaredInFunc g hg c t n hd
 
 open Local in
 /-- … and the regenerated guard does: a macro parameter, a macro nested in a block, a variable of a
 block named like an imported macro is what `Name(...)` calls in the function that declares it. -/
 theorem local_of_current_function_wins (c : Chain) (t : Table) (n : Nat)
     (hd : declaredInFunc c n = true) :
-    emitCallee (ExportGuard.directCallGuard true) false c t n = resolve c t n :=
+    emitCallee (ExportGuard.directCallGuard true) c t n = resolve c t n :=
   (direct_call_guard_needed (ExportGuard.directCallGuard true)).2 (by decide) c t n hd
 
 open Local in
 /-- full statement: the emitter's callee is the lexical one for every chain of blocks -/
-def EmitEqResolve (g : Bool → Bool) : Prop :=
-  ∀ (c : Chain) (t : Table) (n : Nat), emitCallee g false c t n = resolve c t n
+def EmitEqResolve (g : Bool → Bool → Bool) : Prop :=
+  ∀ (c : Chain) (t : Table) (n : Nat), emitCallee g c t n = resolve c t n
 
 open Local in
-/-- **False of the code today** (known finding `local-shadow-of-imported-macro-in-closure`): a local
-of an *enclosing* function is not "declared in the current function"; inside a closure the direct
-call wins over it. Witness: a closure body inside a block that declares name 0, table with name 0. -/
-theorem emit_ne_resolve_witness (g : Bool → Bool) (hg : g false = true) : ¬ EmitEqResolve g := by
+/-- **The defect of finding `local-shadow-of-imported-macro-in-closure`** (repaired by d12f88d): a guard
+that takes the direct call for a closure variable — as `ok && !declaredInFunc` did, which ignores the
+closure variables — does not satisfy the full statement: a local of an *enclosing* function is not
+"declared in the current function"; inside a closure the direct call wins over it. Witness: a closure
+body inside a block that declares name 0, table with name 0. -/
+theorem emit_ne_resolve_witness (g : Bool → Bool → Bool) (hg : g false true = true) :
+    ¬ EmitEqResolve g := by
   intro h
   have := h [⟨[], true⟩, ⟨[(0, 1)], false⟩] [(0, 9)] 0
-  simp [emitCallee, declaredInFunc, find, resolve, resolveLocal, hg] at this
+  simp [emitCallee, isClosureVar, declaredInFunc, find, resolve, resolveLocal, hg] at this
 
 open Local in
-/-- **As far as it holds** (`…_partial`): the emitter's callee is the lexical one whenever no local of
-an enclosing function shadows a name of the package table at this use (`hUp`) — in particular for
-every name declared in the current function and for every name with no local declaration at all. The
-unrestricted statement is refuted by `emit_ne_resolve_witness`. -/
-theorem emit_eq_resolve_partial (c : Chain) (t : Table) (n : Nat)
-    (hUp : declaredInFunc c n = false → (resolveLocal c n).isSome = true → find t n = none) :
-    emitCallee (ExportGuard.directCallGuard true) false c t n = resolve c t n := by
-  cases hd : declaredInFunc c n with
-  | true => exact local_of_current_function_wins c t n hd
-  | false =>
-    cases hl : resolveLocal c n with
-    | none => exact emitCallee_of_not_local _ false c t n hl
-    | some d =>
-      have ht := hUp hd (by rw [hl]; rfl)
-      unfold emitCallee
-      simp [hd, ht]
+/-- **Both tests are exactly what the full statement needs**: an arbitrary condition `g` of the
+direct-call branch gives the lexical callee for every chain of blocks, table and name iff it refuses
+the branch for names declared in the current function and for closure variables. (What `g` answers
+for a name that is neither does not matter: then the table's function is the lexical callee; the
+pair (declared, closure variable) = (true, true) does not occur.) -/
+theorem emit_eq_resolve_iff (g : Bool → Bool → Bool) :
+    EmitEqResolve g ↔ (g true false = false ∧ g false true = false) := by
+  constructor
+  · intro h
+    refine ⟨(direct_call_guard_needed g).1 (fun c t n _ => h c t n), ?_⟩
+    cases hg : g false true with
+    | false => rfl
+    | true => exact absurd h (emit_ne_resolve_witness g hg)
+  · intro ⟨h1, h2⟩ c t n
+    cases hd : declaredInFunc c n with
+    | true => exact emitCallee_of_declaredInFunc g h1 c t n hd
+    | false =>
+      cases hl : resolveLocal c n with
+      | none => exact emitCallee_of_not_local g c t n hl
+      | some d => exact emitCallee_of_closureVar g h2 c t n hd (by rw [hl]; rfl)
 
 open Local in
-/-- with the repair proposed for the finding (the guard also asks the closure variables) the full
-statement holds -/
-theorem emit_closure_aware_eq_resolve (c : Chain) (t : Table) (n : Nat) :
-    emitCallee (ExportGuard.directCallGuard true) true c t n = resolve c t n := by
-  cases hl : resolveLocal c n with
-  | none => exact emitCallee_of_not_local _ true c t n hl
-  | some d =>
-    unfold emitCallee
-    simp [hl, ExportGuard.directCallGuard]
+/-- **Full strength** (was `emit_eq_resolve_partial` before d12f88d): with the regenerated guard the
+emitter's callee of `Name(...)` is the lexically resolved declaration for every chain of blocks and
+function boundaries, every package table and every name — a local of the current function, a local of
+an enclosing function seen from a closure, or, with no local around the use, the function of the
+package table. -/
+theorem emit_eq_resolve : EmitEqResolve (ExportGuard.directCallGuard true) :=
+  (emit_eq_resolve_iff _).2 (by decide)
 
 open Local in
 /-- non-vacuity: a macro parameter named like an imported macro, called in the macro's body inside
-an `if` block; and the closure of the finding -/
+an `if` block; the closure of the former finding: today the local, with the old guard the table's -/
 example : declaredInFunc [⟨[], false⟩, ⟨[(0, 1)], true⟩, ⟨[], true⟩] 0 = true ∧
     resolve [⟨[], false⟩, ⟨[(0, 1)], true⟩, ⟨[], true⟩] [(0, 9)] 0 = some (.loc 1) ∧
-    emitCallee (ExportGuard.directCallGuard true) false [⟨[], false⟩, ⟨[(0, 1)], true⟩, ⟨[], true⟩] [(0, 9)] 0
+    emitCallee (ExportGuard.directCallGuard true) [⟨[], false⟩, ⟨[(0, 1)], true⟩, ⟨[], true⟩] [(0, 9)] 0
       = some (.loc 1) := by decide
-example : ¬ EmitEqResolve (ExportGuard.directCallGuard true) := emit_ne_resolve_witness _ (by decide)
+open Local in
+example : isClosureVar [⟨[], true⟩, ⟨[(0, 1)], false⟩] 0 = true ∧
+    emitCallee (ExportGuard.directCallGuard true) [⟨[], true⟩, ⟨[(0, 1)], false⟩] [(0, 9)] 0 = some (.loc 1) ∧
+    emitCallee (fun d _ => !d) [⟨[], true⟩, ⟨[(0, 1)], false⟩] [(0, 9)] 0 = some (.pkg 9) := by decide
+example : ¬ EmitEqResolve (fun d _ => !d) := emit_ne_resolve_witness _ (by decide)
 
 /-! ## the way a macro is reached does not matter -/
 
